@@ -547,6 +547,9 @@ def _param_aliases(f, pnames):
     return alias
 
 
+direct_alias = {}     # {(tu,fn): {param index}} freed only through a local alias
+
+
 def param_escape_summary(prog, cg):
     """esc[(tu,fn)][i] in {'free','store'}: what the function may do with its
     i-th pointer parameter (absent = borrows it)."""
@@ -577,6 +580,10 @@ def param_escape_summary(prog, cg):
                         callee = n.get('callee')
                         if callee in RELEASERS and RELEASERS[callee] == j:
                             kind = 'free'
+                            if a['name'] not in pnames:
+                                # freed through a local alias of the parameter
+                                # (list walkers; also flag-guarded frees)
+                                direct_alias.setdefault(key, set()).add(i)
                         elif callee in LIBC_BORROW:
                             kind = None
                         else:
@@ -590,6 +597,8 @@ def param_escape_summary(prog, cg):
                                 kk = esc[(g.tu.name, g.name)].get(j)
                                 if kk == 'free' or (kk == 'store' and kind is None):
                                     kind = kk
+                                    if kk == 'free' and j in direct_alias.get((g.tu.name, g.name), ()):
+                                        direct_alias.setdefault(key, set()).add(i)
                         if kind and cur.get(i) != 'free' and cur.get(i) != kind:
                             cur[i] = kind
                             changed = True
